@@ -61,6 +61,10 @@ def judge(x, n, k, drop):
         bad.append('mutex_left_locked')
     if r['rec_calls'] != [k] * n or r['lone_rec_calls'] != 1 or r['bad_ret']:
         bad.append('exec_passthrough')
+    if r.get('inheritable_at_exec', 0):
+        # at the moment of one thread's real exec a descriptor the library opened in ANOTHER thread is open without close-on-exec:
+        # the new program would inherit it - the call does not behave as it would alone
+        bad.append('library_descriptor_inheritable_at_another_threads_exec')
     if r.get('umask_end', 0o27) != 0o27:
         bad.append('process_umask_changed_to_%o' % r['umask_end'])
     text = x.log
@@ -190,6 +194,7 @@ def run(ck):
             ('tsan-3x1', vt, 'tsan', False, CFG_LOG, 3, 1, 1, False),
             ('fn-tsan-2x1', S.build_thr('c09-schedfn-tsan', san='tsan', fn=True), 'tsan', True, CFG_LOG, 2, 1, 1, False),
             ('fn-asan-2x1-b2', vf, 'asan', True, CFG_DROP, 2, 1, 2, True),
+            ('fn-asan-allds-2x1', vf, 'asan', True, CFG_ALLDS, 2, 1, 1, False),
             ('hashed-asan-3x1', va, 'asan', False, CFG_LOG, 3, 1, 'hashed', False),
             # all interleavings at FUNCTION-ENTRY granularity (state = thread positions counted in function entries + sync points)
             ('fn-hashed-asan-drop-2x1', vf, 'asan', True, CFG_DROP, 2, 1, 'hashed', True),
